@@ -38,6 +38,10 @@ def families(r):
         F.append(("shrink%d" % k, "DEFINE eat <ID> <ID> AS eat $1 END DEFINE\neat " + " ".join("v%d" % i for i in range(k)), k - 1, 1024))
     for k in (1, 3, 6, 17, 64):
         F.append(("uses%d" % k, "DEFINE NOP AS n_ := 0 END DEFINE\n" + " ; ".join(["NOP"] * k), k, 1024))
+    # divergent sets whose half-expanded stream is a perfectly valid program
+    F.append(("valid-leftover-self", "DEFINE <ID> := 0 AS $0 := 0 END DEFINE\nx0 := 0", None, 1024))
+    F.append(("valid-leftover-flip", "DEFINE <ID> := 0 AS $0 := 1 END DEFINE\nDEFINE <ID> := 1 AS $0 := 0 END DEFINE\nx0 := 0", None, 1024))
+    F.append(("valid-leftover-grow", "DEFINE <ID> := 0 AS x1 := 1 ; $0 := 0 END DEFINE\nx0 := 0", None, 1024))
     F.append(("wrap", "DEFINE wrap <V> AS wrap RUN f WITH $0 END END DEFINE\nwrap x", None, 64))
     F.append(("dup", "DEFINE dup <P> fin AS dup $0 ; $0 fin END DEFINE\ndup x := 1 fin", None, 10))
     F.append(("prio-mix", "DEFINE PRIO 9 hi AS done END DEFINE\nDEFINE PRIO 1 lo AS lo hi END DEFINE\nlo", None, 300))
@@ -70,7 +74,7 @@ def plan(tier, seed):
                 if b >= 1000:
                     specs.append({"mode": "macro", "runs": [(fi, b)]})
     for fi, f in enumerate(fams):
-        if f[3] >= 1024 and (tier != "quick" or f[0] in ("self", "mutual", "chain5", "uses3", "grow-linear", "chain65")):
+        if f[3] >= 1024 and (tier != "quick" or f[0] in ("self", "mutual", "chain5", "uses3", "grow-linear", "chain65", "valid-leftover-self", "valid-leftover-flip", "valid-leftover-grow")):
             specs.append({"mode": "compile", "runs": [(fi, 1024)]})
     # compile a divergent set right after its terminating twin in the same process
     specs.append({"mode": "compile", "runs": [(1, 1024), (0, 1024)]})
